@@ -108,6 +108,14 @@ def cause_of(script):
 
 
 def job(j):
+    try:
+        world.set_debug_logging(not j[0].get('default_logging'))
+        return _job(j)
+    finally:
+        world.set_debug_logging(True)
+
+
+def _job(j):
     cfg, mode, bound, letters, conn_letters, max_exec = j[:6]
     root = tuple(j[6]) if len(j) > 6 else ()
     st = Stats()
@@ -193,6 +201,10 @@ def run(tier, seed, rep):
             jobs.append((cfg, 'product', depth_of(cfg, ['ok']), letters, ['ok'], None))
             if cfg['transport'] == 'tcp':
                 jobs.append((cfg, 'deviations', 2, letters, conn, None))
+    # the library's logging at its default level instead of DEBUG (the rest of the exploration runs with DEBUG enabled)
+    for tr in ('udp', 'tcp'):
+        for ka in (False, True):
+            jobs.append((dict(transport=tr, ka=ka, T=1, R=1, cmd='read', default_logging=True), 'product', 2, alphabet(tr), ['ok'], None))
     # non-initial states
     for tr in ('udp', 'tcp'):
         for ka in (False, True):
